@@ -424,6 +424,7 @@ class BuildCheckpointStateModel(Contract):
         return Obj("ckstate", {"samples": env["samples"], "iteration": env["iteration"], "beta": env["beta"],
                                "hist_len": IV(list_len(h.f["beta"])),
                                "hist_sum": R(list_sum(h.f["log_norm_ratio"])) if list_sum(h.f["log_norm_ratio"]) is not None else NONE,
+                               "sh_len": IV(list_len(h.f["sample_history"])), "sh_last": list_last(h.f["sample_history"]),
                                "samples_evidence": env["samples"].f.get("log_evidence", NONE)})
 
 
@@ -752,6 +753,10 @@ class Sample(Contract):
                 out.append(("C12 payload current: samples object, iteration, beta, history of this iteration",
                             z3.And(z3.BoolVal(ck.f["samples"] is e["samples"]), to_int(ck.f["iteration"]) == it, to_real(ck.f["beta"]) == bn,
                                    to_int(ck.f["hist_len"]) == it)))
+                sh_last = ck.f.get("sh_last")
+                out.append(("C18 C11 checkpointed history already holds the population of this iteration (len(sample_history) == iterations + 1, ending with it)",
+                            z3.Implies(g["store"], z3.And(to_int(ck.f["sh_len"]) == it + 1,
+                                                          z3.BoolVal(sh_last is not None and same_pop(sh_last, e["samples"]))))))
                 out.append(("C12 checkpoint is taken after mutation (last event of the iteration)", z3.BoolVal(order[-1] == "callback" and order[-2] == "mutate")))
         else:
             out.append(("C12 no checkpointing configured: no callback invoked", z3.BoolVal(len(cbs) == 0)))
